@@ -472,7 +472,7 @@ def subtrees(t):
                 yield s
 
 
-ATOMS = ["a", "b", "foo", "[]", "f", "g", "hello world", "A1", "12", "-3", "1.5", "x_y"]
+ATOMS = ["a", "b", "foo", "[]", "f", "g", "hello world", "A1", "x_y"]   # (no number-like atoms: atom-vs-number equality is C18)
 
 
 def gen_term(rng, depth, vars_ok=True):
@@ -618,6 +618,15 @@ def run(ctx):
     drv = ctx.driver("Drivers.C16")
 
     failures = []      # (what, replay, sig)
+    import time as _time
+    phases = ctx.extra.setdefault("phase_seconds", {})
+    _t = [_time.time()]
+
+    def lap(name):
+        now = _time.time()
+        phases[name] = round(now - _t[0], 2)
+        _t[0] = now
+    lap("regeneration+lean")
 
     def report(what, replay, sig):
         failures.append((what, replay, sig))
@@ -697,6 +706,7 @@ def run(ctx):
         ctx.obligation("translator cross-check: %d applications of the %d generated definitions agree with the Python lambdas" % (
             len(lines), len(fn_keys)), nbad == 0, "; ".join(corr_bad[:3]))
 
+    lap("grid")
     # ---- 4. the Lean spec (IsoArith) says what the Python oracle says (keeps the two readings of the standard aligned)
     if drv is not None:
         lines, exp = [], []
@@ -748,6 +758,7 @@ def run(ctx):
                 bad.append((blines[3 * j], bouts[3 * j], "bitwise"))
         ctx.obligation("Lean spec IsoArith = Python oracle on %d integer/float points" % (len(lines) + len(bexp)), not bad, str(bad[:3]))
 
+    lap("spec-vs-oracle")
     # ---- 5. comparisons
     cmp_vals = SMALL[::2] + FLOATS[:9] + BIG[:2]
     for name in ["<", "=<", ">", ">=", "=:=", "=\\="]:
@@ -764,6 +775,7 @@ def run(ctx):
                            {"kind": "compare", "function": name, "args": [a, b]},
                            {"kind": "raw-exception" if out[0] == "E" and not is_problog_error(out[2]) else "value", "function": name + "/2"})
 
+    lap("comparisons")
     # ---- 6. random expression trees: node-local oracle check on the real code + compute_function model
     keys1 = sorted(n for (n, a) in rt_keys if a == 1)
     keys2 = sorted(n for (n, a) in rt_keys if a == 2)
@@ -852,6 +864,7 @@ def run(ctx):
         ctx.obligation("correspondence: compute_function model = Term.compute_value on %d expression trees (%d outside the model: libm / inexact floats)" % (
             len(ev_lines), nskip), nbad == 0 and nskip < len(ev_lines) * 0.7)
 
+    lap("trees")
     # ---- 7. builtins: every supported mode + a smaller invalid stream
     rng = ctx.sub_rng("builtins")
     nb = ctx.budget(1500, 40000)
@@ -921,6 +934,8 @@ def run(ctx):
         ctx.obligation("correspondence: Builtins model = engine on %d builtin calls and type tests (%d outside the model)" % (len(bl), nskip),
                        nbad == 0 and nskip < len(bl) * 0.5)
 
+    lap("builtins")
+    ctx.extra["engine_resets"] = impl.resets
     # ---- verdict: shrink is trivial (every failure is a single application / call); report distinct signatures
     seen = set()
     for what, rep, sig in failures:
